@@ -2161,7 +2161,7 @@ func genMvccSession(rng *rand.Rand, st *Stats) []string {
 				o += fmt.Sprintf(" since=%d", rng.Intn(int(cts)+3))
 			}
 			if rng.Intn(8) == 0 {
-				o = fmt.Sprintf("iter %d iskey=1 prefix=%s seek=rewind rev=%d", id, hx(keys[rng.Intn(len(keys))]), 0)
+				o = fmt.Sprintf("iter %d iskey=1 prefix=%s seek=rewind rev=%d", id, hx(keys[rng.Intn(len(keys))]), b2i(rng.Intn(4) == 0))
 			}
 			if rng.Intn(8) == 0 {
 				o = "x" + o // the iterator is created while a memtable flush runs
